@@ -9,7 +9,11 @@ Import ListNotations.
 Section ProofsDisc.
 Context {T : Type}.
 Variable cast : dt -> dt -> T -> T.
+Variable V : variant.
 Notation store := (@store T).
+Notation tens_ufunc := (tens_ufunc cast V).
+Notation disc_ufunc := (disc_ufunc cast V).
+Notation kept_axes := (kept_axes V).
 Notation operand := (@operand T).
 Notation npsem := (@npsem T).
 
@@ -60,7 +64,7 @@ Proof. induction k; cbn; auto. Qed.
 Lemma disc_call_sound (NP : npsem) (st : store) ds nout k ins kw rins rets st' :
   (k = 0 \/ k = nout)%nat ->
   map_opt tens_unwrap (map to_tensor ins) = Some rins ->
-  disc_ufunc cast NP st ds nout MCall ins kw (repeat None k) = Ok (rets, st') ->
+  disc_ufunc NP st ds nout MCall ins kw (repeat None k) = Ok (rets, st') ->
   exists rrets,
     raw_ufunc cast NP st MCall (kw_drop_keepdims kw) rins (repeat None nout) = Ok (rrets, st')
     /\ Forall2 (wraps_disc st' (ds_axes ds)) rets rrets.
@@ -70,11 +74,11 @@ Proof.
   rewrite forallb_dvalid_nones in Hd. cbn [negb] in Hd.
   destruct (negb ((nout =? 1)%nat || (nout =? 2)%nat)); try discriminate.
   rewrite map_to_tensor_nones, !(pad_none_nones nout k Hk) in Hd.
-  destruct (tens_ufunc cast NP st (ds_ts ds) nout MCall (map to_tensor ins) (kw_drop_keepdims kw)
+  destruct (tens_ufunc NP st (ds_ts ds) nout MCall (map to_tensor ins) (kw_drop_keepdims kw)
                        (repeat None nout)) as [[rs st2]|] eqn:Et; try discriminate.
   destruct (wrap_disc_calls ds (repeat None nout) rs) as [l|] eqn:Ew; try discriminate.
   inversion Hd; subst.
-  eapply tens_call_sound_gen in Et as (rrets & Hr & HF2); eauto.
+  eapply (tens_call_sound_gen cast V) in Et as (rrets & Hr & HF2); eauto.
   exists rrets. split; auto. eapply wrap_disc_calls_none; eauto.
 Qed.
 
@@ -92,25 +96,47 @@ Proof.
   destruct (Z.eqb_spec (Z.of_nat i) z) as [E|E], (Nat.eqb_spec i (Z.to_nat z)) as [E'|E']; auto; lia.
 Qed.
 
+Lemma znorm_nonneg nd z : (0 <= z)%Z -> znorm V nd z = z.
+Proof. intros Hz. unfold znorm. destruct (Z.ltb_spec z 0); [lia|]. rewrite andb_false_r. reflexivity. Qed.
+Lemma map_znorm_nonneg nd l : Forall (fun z => (0 <= z)%Z) l -> map (znorm V nd) l = l.
+Proof. induction 1; cbn; [reflexivity|]. rewrite znorm_nonneg by assumption. congruence. Qed.
+
 (* for NON-NEGATIVE axes (any rank, any subset, int or tuple) the code keeps
-   exactly the axes NumPy keeps *)
+   exactly the axes NumPy keeps -- in both variants *)
 Lemma kept_axes_tuple_nonneg nd (l : list Z) :
   Forall (fun z => (0 <= z)%Z) l ->
   kept_axes nd (AxTuple l) = np_kept nd (map Z.to_nat l).
 Proof.
-  intros Hl. unfold kept_axes, np_kept. apply filter_ext. intros i.
-  rewrite zmem_nonneg by exact Hl. reflexivity.
+  intros Hl. unfold Model.kept_axes, np_kept. rewrite map_znorm_nonneg by exact Hl.
+  apply filter_ext. intros i. rewrite zmem_nonneg by exact Hl. reflexivity.
 Qed.
 Lemma kept_axes_int_nonneg nd (z : Z) : (0 <= z)%Z ->
   kept_axes nd (AxInt z) = np_kept nd [Z.to_nat z].
 Proof.
-  intros Hz. unfold kept_axes, np_kept. apply filter_ext. intros i.
-  rewrite zmem_nonneg by (constructor; auto). reflexivity.
+  intros Hz. unfold Model.kept_axes, np_kept. rewrite znorm_nonneg by exact Hz.
+  apply filter_ext. intros i. rewrite zmem_nonneg by (constructor; auto). reflexivity.
 Qed.
+
+(* REPAIRED variant: the same for every axis NumPy accepts, negative ones
+   included (-nd <= z < nd): the kept axes are those of the normalised axes *)
+Definition znormalize (nd : nat) (z : Z) : nat := Z.to_nat (if (z <? 0)%Z then z + Z.of_nat nd else z).
+Lemma kept_axes_tuple_repaired nd (l : list Z) :
+  v_negaxis V = true ->
+  Forall (fun z => (- Z.of_nat nd <= z)%Z) l ->
+  kept_axes nd (AxTuple l) = np_kept nd (map (znormalize nd) l).
+Proof.
+  intros HV Hl. unfold Model.kept_axes, np_kept. apply filter_ext. intros i. f_equal.
+  assert (Hnn : Forall (fun z => (0 <= z)%Z) (map (znorm V nd) l)).
+  { apply Forall_map. eapply Forall_impl; [|exact Hl]. cbn. intros z Hz. unfold znorm. rewrite HV. cbn.
+    destruct (Z.ltb_spec z 0); lia. }
+  rewrite zmem_nonneg by exact Hnn. rewrite map_map. f_equal. apply map_ext. intros z.
+  unfold znorm, znormalize. rewrite HV. reflexivity.
+Qed.
+
 (* axis absent: NumPy reduces axis 0 *)
 Lemma kept_axes_absent nd : kept_axes nd AxAbsent = np_kept nd [0%nat].
 Proof.
-  unfold kept_axes, np_kept. destruct nd as [|nd]; [reflexivity|].
+  unfold Model.kept_axes, np_kept. destruct nd as [|nd]; [reflexivity|].
   replace (S nd - 1)%nat with nd by lia. cbn [seq filter existsb Nat.eqb orb negb].
   rewrite <- seq_shift. generalize (seq 0 nd) as l.
   induction l as [|a l IH]; cbn; [reflexivity | rewrite <- IH; reflexivity].
@@ -151,7 +177,7 @@ Lemma disc_meth_sound (NP : npsem) (st : store) ds nout m ins kw rins outs rets 
   is_call m = false ->
   (outs = [] \/ outs = [None]) ->
   map_opt tens_unwrap (map to_tensor ins) = Some rins ->
-  disc_ufunc cast NP st ds nout m ins kw outs = Ok (rets, st') ->
+  disc_ufunc NP st ds nout m ins kw outs = Ok (rets, st') ->
   exists rr st_raw,
     raw_ufunc cast NP st m (kw_drop_keepdims kw) rins (if is_at m then [] else [None]) = Ok ([rr], st_raw)
     /\ reshape_of st_raw st'
@@ -169,9 +195,9 @@ Proof.
     repeat match type of Hd with (if ?c then Err _ else _) = _ => destruct c; try discriminate end;
     rewrite Hot in Hd; cbn [is_at] in Hd |- *;
     match type of Hd with
-      match tens_ufunc ?c ?np ?s ?sp ?n ?mm ?i ?k ?o with _ => _ end = _ =>
-        destruct (tens_ufunc c np s sp n mm i k o) as [[rs st2]|] eqn:Et; try discriminate;
-        eapply tens_meth_sound_gen in Et as (rr & Hr & r & -> & Hw); eauto
+      match Model.tens_ufunc ?c ?v ?np ?s ?sp ?n ?mm ?i ?k ?o with _ => _ end = _ =>
+        destruct (Model.tens_ufunc c v np s sp n mm i k o) as [[rs st2]|] eqn:Et; try discriminate;
+        eapply (tens_meth_sound_gen cast V) in Et as (rr & Hr & r & -> & Hw); eauto
     end;
     exists rr, st2; (destruct rr as [id|v|]; cbn in Hw; [destruct Hw as (spc & -> & Hs & Hdt) | subst r | subst r]);
     try (inversion Hd; subst; split; [exact Hr|]; split; [left; reflexivity|];
@@ -211,8 +237,10 @@ Proof.
     split; [left; reflexivity|].
     eexists; split; [reflexivity|]. cbn. eexists; exists 0%nat.
     repeat split; try discriminate; auto.
-    + destruct (ts_w (ds_ts d1)), (ts_w (ds_ts d2)); cbn; auto.
-    + destruct (ts_w (ds_ts d1)), (ts_w (ds_ts d2)); cbn; auto.
+    + destruct (ts_w (ds_ts d1)), (ts_w (ds_ts d2)); cbn; auto;
+        destruct (v_boolouter V && dt_eqb (ts_dt spc) DBool); cbn; auto.
+    + destruct (ts_w (ds_ts d1)), (ts_w (ds_ts d2)); cbn; auto;
+        destruct (v_boolouter V && dt_eqb (ts_dt spc) DBool); cbn; auto.
   - (* at: an array-valued result cannot occur *)
     discriminate.
 Qed.
